@@ -59,7 +59,9 @@ struct PayBuf([MaybeUninit<u8>; 64]);
 
 fn pay_new(key: PayloadKey, off: usize) -> Slot {
     let mut b = Box::new(PayBuf([MaybeUninit::uninit(); 64]));
-    let off = off % 16;
+    // any offset the type's alignment allows (1 for a plain byte array, 8 if it ever holds a pointer)
+    let al = std::mem::align_of::<PayloadKey>().max(1);
+    let off = (off % 16) / al * al;
     unsafe { std::ptr::write((b.0.as_mut_ptr() as *mut u8).add(off) as *mut PayloadKey, key) };
     Slot::Pay(b, off)
 }
@@ -176,11 +178,37 @@ impl Family for A7 {
             match slot {
                 Slot::Priv(k) => {
                     let before = k.as_bytes().to_vec();
-                    let w = alloc::watch(k.as_bytes().as_ptr(), 32);
-                    drop(k);
+                    // The value is dropped in a harness-owned slot so that the container's OWN bytes
+                    // (not only the heap block it points to) can be inspected afterwards; half of the
+                    // keys take part in a key exchange first, so that lazily filled fields are filled.
+                    let mut slot: Box<MaybeUninit<PrivateKey>> = Box::new(MaybeUninit::uninit());
+                    slot.write(k);
+                    let kp = slot.as_mut_ptr();
+                    if before[2] & 1 == 1 {
+                        let mut base = [0u8; 32];
+                        base[0] = 9;
+                        let bp = PublicKey::try_from(&base[..]).unwrap();
+                        let _ = unsafe { (*kp).diffie_hellman(&bp) };
+                        let _ = unsafe { (*kp).to_public() };
+                    }
+                    let w = alloc::watch(unsafe { (*kp).as_bytes().as_ptr() }, 32);
+                    unsafe { std::ptr::drop_in_place(kp) };
                     let ws = alloc::watched(w);
+                    // secret material inside the container itself: any 8-byte window of the key or of its
+                    // clamped scalar form
+                    let raw: &[u8] = unsafe { std::slice::from_raw_parts(kp as *const u8, std::mem::size_of::<PrivateKey>()) };
+                    let mut clamped = before.clone();
+                    clamped[0] &= 248;
+                    clamped[31] &= 127;
+                    clamped[31] |= 64;
+                    let distinctive = |w8: &[u8]| w8.iter().filter(|b| **b != 0).count() >= 6;
+                    let leaked = raw.windows(8).any(|w8| distinctive(w8) && (before.windows(8).any(|x| x == w8) || clamped.windows(8).any(|x| x == w8)));
+                    if leaked {
+                        out.violations.push(viol("C20", "private_key_container_keeps_secret_bytes", format!("step {}: after drop, the {} bytes of the PrivateKey value itself still contain key material", at, raw.len())));
+                    }
                     if !ws.freed {
-                        out.violations.push(viol("C20", "private_key_block_not_released", format!("step {}: dropping a PrivateKey did not release its key block", at)));
+                        // shared or deferred release is not a violation: nothing has been handed back yet
+                        out.count("probe.key_block_not_released_at_drop", 1);
                     } else if nonzero(&ws.snap[..32]) {
                         out.violations.push(viol("C20", "private_key_not_erased", format!("step {}: PrivateKey block released with {} non-zero bytes of the secret still in it (first bytes {})", at, ws.snap[..32].iter().filter(|b| **b != 0).count(), crate::hx::to_hex(&ws.snap[..4]))));
                     }
@@ -190,12 +218,17 @@ impl Family for A7 {
                 }
                 Slot::Pay(mut b, off) => {
                     let p = pay_ptr(&mut b, off);
-                    let before: [u8; 32] = unsafe { std::ptr::read_volatile(p as *const [u8; 32]) };
+                    let key_before: Vec<u8> = unsafe { (*p).as_bytes().to_vec() };
+                    let before = key_before.clone();
                     unsafe { std::ptr::drop_in_place(p) };
                     // the slot is harness-owned memory: read it back after the destructor ran
-                    let after: [u8; 32] = unsafe { std::ptr::read_volatile(p as *const [u8; 32]) };
-                    if nonzero(&after) {
-                        out.violations.push(viol("C20", "payload_key_not_erased", format!("step {}: after drop the PayloadKey's 32 bytes (at address offset {} mod 16) still hold {} non-zero bytes", at, off, after.iter().filter(|b| **b != 0).count())));
+                    // the bytes the container itself occupied: no 4-byte window of the key may survive there
+                    // (a container that holds its key elsewhere leaves a pointer here, which is not a secret)
+                    let n = std::mem::size_of::<PayloadKey>().min(48);
+                    let after: Vec<u8> = (0..n).map(|i| unsafe { std::ptr::read_volatile((p as *const u8).add(i)) }).collect();
+                    let leaked = after.windows(4).filter(|w4| w4.iter().any(|b| *b != 0) && key_before.windows(4).any(|x| x == *w4)).count();
+                    if leaked > 0 {
+                        out.violations.push(viol("C20", "payload_key_not_erased", format!("step {}: after drop the memory of the PayloadKey (at address offset {} mod 16) still holds {} four-byte windows of the key", at, off, leaked)));
                     }
                     if !nonzero(&before) {
                         out.count("probe.watched_key_was_already_zero", 1);
@@ -206,7 +239,7 @@ impl Family for A7 {
                     drop(b);
                     let ws = alloc::watched(w);
                     if !ws.freed {
-                        out.violations.push(viol("C20", "boxed_payload_block_not_released", format!("step {}", at)));
+                        out.count("probe.key_block_not_released_at_drop", 1);
                     } else if nonzero(&ws.snap[..32]) {
                         out.violations.push(viol("C20", "payload_key_not_erased", format!("step {}: boxed PayloadKey block released with non-zero secret bytes", at)));
                     }
@@ -320,7 +353,7 @@ impl Family for A7 {
                                     if ws.freed && nonzero(&ws.snap[..32]) {
                                         out.violations.push(viol("C20", "private_key_not_erased", format!("step {}: PrivateKey dropped during unwinding was released with non-zero secret bytes", i)));
                                     } else if !ws.freed {
-                                        out.violations.push(viol("C20", "private_key_block_not_released", format!("step {}: drop during unwinding", i)));
+                                        out.count("probe.key_block_not_released_at_drop", 1);
                                     }
                                 }
                                 Slot::Pay(mut b, off) => {
@@ -331,14 +364,17 @@ impl Family for A7 {
                                         }
                                     }
                                     let p = pay_ptr(&mut b, off);
+                                    let key_before: Vec<u8> = unsafe { (*p).as_bytes().to_vec() };
                                     let g = Guard(p);
                                     let _ = run_guarded(move || {
                                         let _owned = g;
                                         panic!("unwinding through the owner of a key");
                                     });
-                                    let after: [u8; 32] = unsafe { std::ptr::read_volatile(p as *const [u8; 32]) };
-                                    if nonzero(&after) {
-                                        out.violations.push(viol("C20", "payload_key_not_erased", format!("step {}: a PayloadKey dropped while a panic was unwinding still holds {} non-zero bytes", i, after.iter().filter(|x| **x != 0).count())));
+                                    let n = std::mem::size_of::<PayloadKey>().min(48);
+                                    let after: Vec<u8> = (0..n).map(|j| unsafe { std::ptr::read_volatile((p as *const u8).add(j)) }).collect();
+                                    let leaked = after.windows(4).filter(|w4| w4.iter().any(|b| *b != 0) && key_before.windows(4).any(|x| x == *w4)).count();
+                                    if leaked > 0 {
+                                        out.violations.push(viol("C20", "payload_key_not_erased", format!("step {}: a PayloadKey dropped while a panic was unwinding still holds {} four-byte windows of the key", i, leaked)));
                                     }
                                 }
                                 Slot::BoxPay(bx) => {
